@@ -2,6 +2,7 @@ mod c13;
 mod c14;
 mod c46;
 mod c47;
+mod c54;
 mod dag;
 use vkit::{Check, Level};
 fn main() {
@@ -10,5 +11,6 @@ fn main() {
         Check { id: "C14", level: Level::Exploration, run: c14::run },
         Check { id: "C46", level: Level::Exploration, run: c46::run },
         Check { id: "C47", level: Level::Exploration, run: c47::run },
+        Check { id: "C54", level: Level::Exploration, run: c54::run },
     ]);
 }
